@@ -86,7 +86,7 @@ func VerifShadowHistory() {
 	}
 	a, s := mk("active"), mk("shadow")
 	c := &Client{active: a, shadow: s, stats: tally.NoopScope}
-	names := []string{"n1", "n2"}
+	names := []string{"n1", "n2"}[:verif.Bound("names", 1, 2)]
 	// last successfully uploaded content; attempted[i]: some upload was started
 	last := make([][]byte, len(names))
 	attempted := make([]bool, len(names))
